@@ -1,5 +1,6 @@
 import Tickit.Proof.RBFlushTextRun
 import Tickit.Proof.RBFlushReach
+import Tickit.Proof.RBFlushX
 /-
   C04 — flushing a render buffer reproduces its content on the terminal exactly once.
 
@@ -362,8 +363,8 @@ example : FlushSpec (hlineAt (eraseAt (eraseAt (charAt (RB.new 2 6 0 0) 0 2 0x41
     pending-wrap state).  The columns a *run* of the text advances the terminal by are
     the run's columns: `text_run_advances`. -/
 theorem text_columns (s : List UInt8) (cs : List Ch) (hdec : decode s = some cs) (t : GridTerm) :
-    (Utf8.ncountmore s none {} (some ⟨-1, -1, -1, -1⟩)).pos.columns = chCols cs ∧
-    (∀ c ∈ cs, c.width = Utf8.wcwidth c.cp) ∧
+    (RB.Utf8.ncountmore s none {} (some ⟨-1, -1, -1, -1⟩)).pos.columns = chCols cs ∧
+    (∀ c ∈ cs, c.width = RB.Utf8.wcwidth c.cp) ∧
     (t.col + chCols cs ≤ t.cols → (t.printBytes (s.take (bytesLen cs))).col = t.col + chCols cs) := by
   have hp := decodeFrom_props s cs _ 0 hdec
   refine ⟨?_, fun c hc => (hp c hc).2.1, fun hroom => ?_⟩
@@ -379,7 +380,7 @@ theorem text_columns (s : List UInt8) (cs : List Ch) (hdec : decode s = some cs)
 /-- The same for the number `put_string` goes by (`tickit_utf8_ncount` over the whole string, the columns the text
     occupies in the buffer and the virtual cursor advances by — C03 `cursor_advances`): it is the sum of the widths, and
     the terminal advances by exactly that number. -/
-theorem text_columns_put_string (s : List UInt8) (n : Int) (h : Utf8.stringColumns s = some n) (t : GridTerm)
+theorem text_columns_put_string (s : List UInt8) (n : Int) (h : RB.Utf8.stringColumns s = some n) (t : GridTerm)
     (hroom : t.col + n ≤ t.cols) :
     ∃ cs, decode s = some cs ∧ chCols cs = n ∧ (t.printBytes (s.take (bytesLen cs))).col = t.col + n := by
   obtain ⟨cs, hcs, hn⟩ := decode_of_stringColumns s n h
@@ -454,5 +455,166 @@ theorem flush_old_zero_length_counterexample :
     (flushToTermOld edgeRB).reqs = [.goto 0 4, .setpen Pen.empty, .print [0xe2, 0x8c, 0x9a, 0x7a] 0 0] ∧
     (({ blankTerm with viaWriteStr := true }).run (flushToTermOld edgeRB).reqs).cells 0 5 ≠ blankTerm.cells 0 5 := by
   decide +kernel
+
+/-! ## Below the render buffer: the UTF-8 encoder, the xterm driver, the output buffer (third configuration)
+
+  The flush hands its requests to a terminal object.  With the library's real xterm driver each request becomes
+  `write_str` calls (`RBFlushX.reqCalls`: goto / SGR / the text / ECH + CUF or spaces), which pass through the output
+  buffer of src/term.c to the output function.  The statements below are about those layers; the differential check
+  drives them with the real code (harness configuration `termx`) and evaluates `xcellOK` - the property's words - on the
+  screen a VT shows after reading the bytes. -/
+
+open Tickit.RBFlushX in
+/-- **utf8_seqlen_source**: the model's `tickit_utf8_seqlen` is the function of the working tree (`Gen.Width`, translated
+    from src/utf8.c on every run). -/
+theorem utf8_seqlen_source (cp : Int) :
+    ((Tickit.RB.Utf8.seqlen cp : Nat) : Int) = Tickit.Gen.Width.tickit_utf8_seqlen cp := seqlen_src cp
+
+open Tickit.RBFlushX in
+/-- **char_encoding**: for every code point `1 … 0x1FFFFF` (every one- to four-byte form, the edges U+7F/U+80,
+    U+7FF/U+800, U+FFFF/U+10000 included) `tickit_utf8_put` writes the UTF-8 form of the Unicode Standard, and the
+    library's own decoder reads it back as that code point, all bytes consumed. -/
+theorem char_encoding (cp : Nat) (h0 : 0 < cp) (h : cp < 0x200000) :
+    Tickit.RB.Utf8.put cp = stdUtf8 cp ∧
+    Tickit.RB.Utf8.nextUtf8 (Tickit.RB.Utf8.put cp) 0 (some (Tickit.RB.Utf8.put cp).length) =
+      some ⟨(Tickit.RB.Utf8.put cp).length, cp⟩ := by
+  rw [put_eq_stdUtf8 cp h]
+  exact ⟨rfl, nextUtf8_stdUtf8 cp h0 h⟩
+
+/-- Non-vacuity, at the boundary between the three- and the four-byte form. -/
+example : Tickit.RB.Utf8.put 0xFFFF = [0xEF, 0xBF, 0xBF] ∧ Tickit.RB.Utf8.put 0x10000 = [0xF0, 0x90, 0x80, 0x80] ∧
+    Tickit.RBFlushX.stdUtf8 0x10000 = [0xF0, 0x90, 0x80, 0x80] := by decide
+
+/-- **charOK_iff_width**: the hypothesis `CharOK` of `flush_spec` is exactly "the library's width of the code point is
+    1" - the encoding half holds for every code point. -/
+theorem charOK_iff_width (cp : Int) (h0 : 0 < cp) (h : cp < 0x200000) :
+    CharOK cp ↔ Tickit.RB.Utf8.wcwidth cp.toNat = 1 := by
+  constructor
+  · exact fun hc => hc.2
+  · exact fun hw => ⟨(char_encoding cp.toNat (by omega) (by omega)).2, hw⟩
+
+open Tickit.RBFlushX in
+/-- **char_cell_requests**: what the flush does at a CHAR cell: (a goto unless the cursor is there,) the cell's pen, and
+    one print request whose bytes are the UTF-8 form of the cell's code point. -/
+theorem char_cell_requests (txt : Cell → List Req) (rb : RB) (line col phycol : Int) (fuel : Nat)
+    (hc : col < rb.cols) (hs : (rb.cell line col).state = .char) (hcp : (rb.cell line col).cp.toNat < 0x200000) :
+    flushCols txt rb line (fuel + 1) col phycol =
+      andThen (gotoIf phycol line col ++
+          [.setpen (rb.cell line col).pen,
+           .print (stdUtf8 (rb.cell line col).cp.toNat) 0 (stdUtf8 (rb.cell line col).cp.toNat).length])
+        (flushCols txt rb line fuel (col + (rb.cell line col).cols) (col + (rb.cell line col).cols)) := by
+  have hn : ¬ ¬ col < rb.cols := fun h => h hc
+  simp only [flushCols, if_neg hn, hs, put_eq_stdUtf8 _ hcp]
+
+open Tickit.RBFlushX in
+/-- **char_cell_on_vt**: that print request reaches the xterm driver's `write_str` as exactly those bytes, and a VT
+    in its ground state that reads them prints the code point (`putCp`: at the cursor, in the current rendition, one or
+    two columns by the width tables) - "every character cell appears … as that character". -/
+theorem char_cell_on_vt (caps : TermPen.Caps) (cache : Pen) (cp : Nat) (hp : Printable cp) (s : XScreen)
+    (hg : s.ps = .ground) :
+    reqCalls caps cache (.print (Tickit.RB.Utf8.put cp) 0 (Tickit.RB.Utf8.put cp).length) = [stdUtf8 cp] ∧
+    s.interp (stdUtf8 cp) = s.putCp cp := by
+  refine ⟨?_, XScreen.interp_stdUtf8 s hg cp hp⟩
+  rw [put_eq_stdUtf8 cp (by unfold Printable at hp; omega)]
+  have hl : (stdUtf8 cp).length ≠ 0 := stdUtf8_length_ne cp
+  have hne : (stdUtf8 cp).isEmpty = false := by
+    cases h : stdUtf8 cp with
+    | nil => rw [h] at hl; simp at hl
+    | cons a r => rfl
+  simp only [reqCalls, if_neg hl, List.drop_zero, List.take_length, call, hne]
+  rfl
+
+/-- Non-vacuity: U+10000 is printable; the screen shows it in one column. -/
+example : Tickit.RBFlushX.Printable 0x10000 ∧ Tickit.RB.Utf8.wcwidth 0x10000 = 1 := by decide +kernel
+
+open Tickit.RBFlushX in
+/-- **goto_on_vt**: the bytes the xterm driver writes for a goto request of the flush are read by the VT as "cursor to
+    that line and column" (clamped to the screen, ending a pending wrap) and nothing else. -/
+theorem goto_on_vt (caps : TermPen.Caps) (cache : Pen) (s : XScreen) (hg : s.ps = .ground) (line col : Int)
+    (hl : 0 ≤ line) (hc : 0 ≤ col) :
+    s.interp (reqCalls caps cache (.goto line col)).flatten = s.moveTo line col := by
+  simp only [reqCalls, call_flatten]
+  exact XScreen.interp_gotoAbs s hg line col hl hc
+
+open Tickit.RBFlushX in
+/-- **erase_on_vt**: outside reverse video an erase request of `n ≥ 1` cells is read as ECH - `n` cells from the
+    cursor blank in the current background, cursor and pending wrap untouched - followed by "cursor right by `n`"
+    exactly when the flush asked for the cursor to move (`TICKIT_YES`); with `TICKIT_MAYBE` the cursor stays, which is
+    the outcome the flush allows for by sending a goto before the next run. -/
+theorem erase_on_vt (caps : TermPen.Caps) (cache : Pen) (hrv : Pen.getBool cache.reverse = false) (s : XScreen)
+    (hg : s.ps = .ground) (n : Int) (hn : 1 ≤ n) (m : MaybeBool) :
+    s.interp (reqCalls caps cache (.erasech n m)).flatten =
+      if m = .yes then (s.ech n).moveTo s.row (s.col + n) else s.ech n := by
+  simp only [reqCalls, hrv]
+  exact interp_erase s hg n hn m
+
+open Tickit.RBFlushX in
+/-- **text_on_vt**: a print request whose bytes are well-formed UTF-8 of printable code points is read as those code
+    points printed one after the other (`putCp`: one or two columns by the width tables, zero-width characters joining
+    the previous one): the columns the terminal advances by are the widths the library counted. -/
+theorem text_on_vt (caps : TermPen.Caps) (cache : Pen) (cps : List Nat) (hp : ∀ cp ∈ cps, Printable cp) (s : XScreen)
+    (hg : s.ps = .ground) :
+    s.interp (reqCalls caps cache (.print (cps.flatMap stdUtf8) 0 (cps.flatMap stdUtf8).length)).flatten =
+      cps.foldl XScreen.putCp s := by
+  rw [← XScreen.interp_text cps hp s hg]
+  simp only [reqCalls, List.drop_zero, List.take_length]
+  split
+  · rename_i h0
+    have : cps.flatMap stdUtf8 = [] := List.length_eq_zero_iff.1 h0
+    simp [this]
+  · rw [call_flatten]
+
+/-- Non-vacuity: goto (2, 5) on a 4 x 10 screen; an erase of three cells with the cursor moving on. -/
+example : ((Tickit.RBFlushX.XScreen.fresh 4 10).interp
+      (Tickit.RBFlushX.reqCalls ⟨false, false⟩ {} (.goto 2 5)).flatten).row = 2 ∧
+    ((Tickit.RBFlushX.XScreen.fresh 4 10).interp
+      (Tickit.RBFlushX.reqCalls ⟨false, false⟩ {} (.erasech 3 .yes)).flatten).col = 3 := by decide +kernel
+
+open Tickit.RBFlushX in
+/-- **flush_stream_any_buffer**: with the real xterm driver, the bytes the output function receives from a flush
+    followed by `tickit_term_flush` - through an output buffer of *any* size `n` (`0`: none), starting with nothing
+    pending - are the driver's writes in the order the flush made them: the output buffer neither drops, repeats nor
+    reorders a byte (in particular a run longer than the whole buffer comes after the goto and the SGR sequence written
+    before it), and the model of `write_str` never leaves the buffer's bounds (`ok`). -/
+theorem flush_stream_any_buffer (caps : TermPen.Caps) (n : Nat) (cache : Pen) (rb : RB) :
+    (xflush caps n cache (flushToTerm rb).reqs).ok = true ∧
+    (xflush caps n cache (flushToTerm rb).reqs).stream = (reqsCalls caps cache (flushToTerm rb).reqs).flatten :=
+  xflush_stream caps n cache _
+
+open Tickit.RBFlushX in
+/-- **flush_stream_buffer_independent**: what the terminal receives does not depend on the size of the output buffer. -/
+theorem flush_stream_buffer_independent (caps : TermPen.Caps) (n m : Nat) (cache : Pen) (rb : RB) :
+    (xflush caps n cache (flushToTerm rb).reqs).stream = (xflush caps m cache (flushToTerm rb).reqs).stream := by
+  rw [(xflush_stream caps n cache _).2, (xflush_stream caps m cache _).2]
+
+open Tickit.RBFlushX in
+/-- Non-vacuity: `exampleRB` through a 4-byte output buffer - seven full chunks during the flush, the rest on
+    `tickit_term_flush` - and without a buffer: the same bytes. -/
+example :
+    ((xflush ⟨false, false⟩ 4 {} (flushToTerm exampleRB).reqs).during.all (·.length == 4)) = true ∧
+    (xflush ⟨false, false⟩ 4 {} (flushToTerm exampleRB).reqs).stream =
+      (xflush ⟨false, false⟩ 0 {} (flushToTerm exampleRB).reqs).stream ∧
+    (xflush ⟨false, false⟩ 4 {} (flushToTerm exampleRB).reqs).stream.length > 4 := by decide +kernel
+
+open Tickit.RBFlushX in
+/-- The statement about the end result in the third configuration (**open**, evaluated by the differential check on
+    every flush of the `termx` configuration): for a well-formed buffer whose content lies within the screen, whose pens
+    the driver can say in SGR, whose texts are well-formed UTF-8 and whose CHAR cells are printable, flushed through an
+    output buffer of any size to a VT whose rendition is in step with `tt->pen`, every screen cell satisfies the
+    obligation of the buffer's content (`xcellOK`: glyph, all rendering attributes, written exactly once; untouched
+    where the buffer skips).  Proved: the output-buffer layer (`flush_stream_any_buffer`), the encoder and the
+    terminal's reading of a character cell (`char_encoding`, `char_cell_on_vt`), the terminal's reading of the driver's
+    goto, erase (outside reverse video) and text bytes as the cursor movement, ECH (+ CUF) and printed code points they
+    stand for (`goto_on_vt`, `erase_on_vt`, `text_on_vt`), and, on the grid terminal, the whole statement
+    (`flush_spec_screen`).  Missing: the reading of the SGR bytes as the pen (C10 proves it for its own interpreter), and
+    the composition of the per-request readings with `flush_spec_screen`. -/
+def C04_xterm_screen : Prop :=
+  ∀ (caps : TermPen.Caps) (n : Nat) (rb : RB) (s : XScreen) (cache : Pen),
+    FlushWF rb → (∀ l c, s.lines ≤ l ∨ s.cols ≤ c → want rb l c = .keep) →
+    (∀ l c, PenEncodable caps (rb.cell l c).pen) → TextsStrict rb → CharsPrintable rb →
+    s.ps = .ground → PenTotal cache → PenEncodable caps cache → s.attrs = expectAttrs caps cache →
+    ∀ l c, 0 ≤ l → l < s.lines → 0 ≤ c → c < s.cols →
+      xcellOK caps (want rb l c) (s.cells l c)
+        ((s.interp (xflush caps n cache (flushToTerm rb).reqs).stream).cells l c) = true
 
 end Tickit.Props.C04
